@@ -6,6 +6,8 @@ package verifsys
 
 import (
 	"fmt"
+	"runtime"
+	"strings"
 	"sync"
 
 	"golang.org/x/sys/unix"
@@ -257,10 +259,27 @@ func EpollCtlHook(method string, fd int, do func() error) (err error) {
 // Ptr renders the identity of a connection object for entry logs
 func Ptr(v any) string { return fmt.Sprintf("p=%p", v) }
 
+// LogGoid makes Enter append the id of the calling goroutine (" g=<id>"): the hand-over accounting tells the acceptor's
+// hand-overs from enrolments by it
+var LogGoid bool
+
+func goid() string {
+	var buf [64]byte
+	n := runtime.Stack(buf[:], false)
+	f := strings.Fields(string(buf[:n]))
+	if len(f) > 1 {
+		return f[1]
+	}
+	return "?"
+}
+
 func Enter(fn string, vals ...any) {
 	s := "enter " + fn
 	for _, v := range vals {
 		s += fmt.Sprintf(" %v", v)
+	}
+	if LogGoid {
+		s += " g=" + goid()
 	}
 	logf("%s", s)
 }
